@@ -85,9 +85,24 @@ def g_amount(rng, pending):
     return rng.choice([None, None, 0, 1, max(pending - 1, 0), pending, pending + 1, 10**6, -1, -pending - 1, pending // 2, 3])
 
 
+def ad_notice(i: int) -> bytes:
+    """the notice of disconnection as Active Directory frames it (MS-ADTS): an ExtendedResponse without responseName and the OID in a
+    `[10]` element of the LDAPMessage envelope, after the protocolOp"""
+    import ber as _ber
+
+    def tlv(tag, content):
+        return bytes([tag]) + _ber.enc_len(len(content)) + content
+
+    mid = i.to_bytes(max(1, (i.bit_length() + 8) // 8), "big", signed=True) if i else b"\0"
+    return tlv(0x30, tlv(2, mid) + tlv(0x78, tlv(0x0A, b"\x34") + tlv(4, b"") + tlv(4, b"")) + tlv(0x8A, NOTICE.encode()))
+
+
 def crafted_for_client(rng, client, retired):
     """a single response-ish message carrying a candidate id class, packed by the library"""
     i = pick_id(rng, client, retired)
+    if rng.random() < 0.08 and i >= 0:
+        data = ad_notice(i)
+        return data, C.msg_to_json(M.unpack_ldap_message(sansldap.asn1.ASN1Reader(data), M.PackingOptions()))
     kind = rng.choice(["bindResp", "searchEntry", "searchDone", "searchRef", "extResp", "extResp", "bindReq", "extReq", "searchReq", "unbind"])
     op = gen.g_op(rng, kind, depth=1)
     if kind == "extResp" and rng.random() < 0.3:
@@ -386,6 +401,10 @@ def monitor(reqs, replies, roles):
                     viol("C09", None, "a chunk of responses for operations in progress was not accepted", i)
 
         # ---------------- C08: lifecycle
+        if q.get("_ad_notice") and role == "client" and before["state"] != "CLOSED" and not tail_before:
+            if not (ok == "ProtocolError" and after["state"] == "CLOSED"):
+                viol("C08", None, "a notice of disconnection (Active Directory framing: OID in the [10] element of the envelope) did not close the "
+                     "client session", i)
         if before["state"] == "CLOSED":
             if after["state"] != "CLOSED":
                 viol("C08", None, "a CLOSED session left the CLOSED state", i)
@@ -470,6 +489,7 @@ def small_alphabet(role):
                 syms.append({"k": "receive", "chunk": _pack({"id": i, "op": op, "controls": []})})
         syms.append({"k": "receive", "chunk": _pack({"id": 0, "op": {"k": "extResp", "res": res(52), "name": t(NOTICE), "value": None}, "controls": []})})
         syms.append({"k": "receive", "chunk": _pack({"id": 1, "op": {"k": "extReq", "name": t("1.2"), "value": None}, "controls": []})})
+        syms.append({"k": "receive", "chunk": ad_notice(1).hex()})      # Active Directory's framing of the notice, on an id that may be in progress
         return syms
     ext = lambda i: {"k": "receive", "chunk": _pack({"id": i, "op": {"k": "extReq", "name": t("1.2"), "value": None}, "controls": []})}
     syms = [
@@ -642,6 +662,19 @@ def scripted_histories():
             hist(("c", ext_c), ("c", ext_c), ("c", rx(bad + ext2[:cut])), ("c", rx(ext2[cut:])))
             hist(("c", ext_c), ("c", ext_c), ("c", rx(ext1 + bad + ext2[:cut])), ("c", rx(ext2[cut:])))
     hist(("c", ext_c), ("c", ext_c), ("c", rx(ext1 + ext2[:3])), ("c", rx(ext2[3:])), ("c", ext_c), ("c", rx(ext1)))
+    # a negative message id is never an id the client issued, however many it has issued (-127 and 129, -1 and 255 share their content octet)
+    import ber as _ber3
+
+    def raw_resp(id_octets):
+        tl = lambda tag, c: bytes([tag]) + _ber3.enc_len(len(c)) + c
+        return tl(0x30, tl(2, id_octets) + tl(0x78, tl(0x0A, b"\0") + tl(4, b"") + tl(4, b"")))
+
+    for issued, octets in ((129, b"\x81"), (255, b"\xff"), (130, b"\xff\x7f")):
+        hist(*([("c", ext_c)] * issued + [("c", rx(raw_resp(octets))), ("c", ext_c)]))
+    # the notice of disconnection in Active Directory's framing, carrying the id of an operation in progress / id 0 / an unknown id
+    for first in (ext_c, srch_c, bind_c):
+        for nid in (1, 0, 5):
+            hist(("c", first), ("c", rx(ad_notice(nid))), ("c", ext_c), ("c", rx(ext2)))
     # server in the middle of a SASL bind
     hist(("s", rx(bind_req(1, sasl))), ("s", bind_resp(1, 14)), ("s", rx(ext_req(2))), ("s", ext_resp(2)), ("s", rx(bind_req(3, sasl))), ("s", bind_resp(3, 0)))
     hist(("s", rx(bind_req(1, sasl))), ("s", bind_resp(1, 14)), ("s", bind_resp(1, 0)), ("s", bind_resp(7, 0)), ("s", rx(bind_req(2, sasl))), ("s", bind_resp(2, 0)),
@@ -670,11 +703,26 @@ def run_histories(ctx, prop, n_hist, length, mode="mixed"):
         for q in reqs:
             if q["op"] == "call" and q["call"]["k"] == "receive" and q["name"].startswith("c"):
                 try:
+                    # a notice of disconnection in Active Directory's framing, recognised from the bytes themselves (own TLV reader)
+                    import ber as _ber2
+                    top = _ber2.parse(bytes.fromhex(q["call"]["chunk"]))
+                    if len(top) == 1 and top[0].kids and len(top[0].kids) >= 3 and top[0].kids[1].cls == 1 and top[0].kids[1].num == 24 \
+                            and any(k.cls == 2 and k.num == 10 and bytes(k.content) == NOTICE.encode() for k in top[0].kids[2:]):
+                        q["_ad_notice"] = True
+                except BaseException:  # noqa: BLE001
+                    pass
+                try:
                     data = bytes.fromhex(q["call"]["chunk"])
                     r = sansldap.asn1.ASN1Reader(data)
                     m = M.unpack_ldap_message(r, M.PackingOptions())
+                    def own_ids(b):
+                        # message ids as the bytes say (own TLV reader, two's complement), not as the library decoded them
+                        import ber as _b
+                        return [int.from_bytes(u.kids[0].content, "big", signed=True) for u in _b.parse(b)]
+
                     if not r.get_remaining_data():
                         q["_single"] = C.msg_to_json(m)
+                        q["_single"]["id"] = own_ids(data)[0]
                     else:
                         # more than one unit: decode every complete unit (own framing), ignore an incomplete tail
                         import ber as _ber
@@ -684,6 +732,8 @@ def run_histories(ctx, prop, n_hist, length, mode="mixed"):
                         while rr:
                             us.append(C.msg_to_json(M.unpack_ldap_message(rr, M.PackingOptions())))
                         if len(us) >= 1:
+                            for u, i_ in zip(us, own_ids(data[:pos])):
+                                u["id"] = i_
                             q["_units"] = us
                 except BaseException:  # noqa: BLE001
                     pass
@@ -701,7 +751,7 @@ def run_histories(ctx, prop, n_hist, length, mode="mixed"):
         all_reqs.extend(reqs)
     disagreements = []
     if ctx.driver_ok:
-        clean = [{k: v for k, v in q.items() if k not in ("_single", "_units")} for q in all_reqs]
+        clean = [{k: v for k, v in q.items() if k not in ("_single", "_units", "_ad_notice")} for q in all_reqs]
         a = drive.run_impl(copy.deepcopy(clean))
         b = drive.run_model(clean)
         pa = [project(prop, drive.norm(x)) for x in a]
